@@ -862,23 +862,27 @@ class ShiftRight(Logic):
         w = last.getWidth()
         wb = b.getWidth()
         
+        # the extension must also cover the result width, otherwise the upper
+        # bits of a wider result are filled with zeros instead of the sign
+        we = max(w, r.getWidth()) + (1<<wb)
+        
         if (isinstance(arithmetic, Wire)):
             self.addIn('arithmetic', arithmetic)
             
-            signExtended = self.wire(f'sign_extended', w + (1<<wb))
+            signExtended = self.wire(f'sign_extended', we)
             SignExtend(self, f'sign_extended', last, signExtended)
             
-            zeroExtended = self.wire(f'zero_extended', w + (1<<wb))
+            zeroExtended = self.wire(f'zero_extended', we)
             ZeroExtend(self, f'zero_extended', last, zeroExtended)
 
-            last = self.wire(f'extended', w + (1<<wb))
+            last = self.wire(f'extended', we)
             
             Mux2(self, 'extended', arithmetic, zeroExtended, signExtended, last)
             w = last.getWidth()           
             
         else:
             if (arithmetic):
-                signExtended = self.wire(f'sign_extended', w + (1<<wb))
+                signExtended = self.wire(f'sign_extended', we)
                 SignExtend(self, f'sign_extended', last, signExtended)
                 last = signExtended
                 w = last.getWidth()
